@@ -111,9 +111,14 @@ Fixpoint dec_regions (n : nat) (l : list tok) : option (list region * list tok) 
   match n with
   | O => Some ([], l)
   | S k => match l with
-           | TL [st; sz; ps; tr] :: r =>
+           | TL [st; sz; ps; trk] :: r =>
+               (* the token is flavour + 16 * region kind; region kind 1 = (Xen build) a grant region mapped in advance, whose
+                  start is a page multiple - the kind of mapping behind a region is not part of the model: MmapRegion::get_slice
+                  takes pointer and bitmap view the same way for every kind *)
+               let tr := trk mod 16 in
                (* flavour 7 = the bitmap of the crate's default constructors (NewBitmap::with_len): one bit per host page *)
-               if (ps =? 0) || (1000000 <? sz) || ((tr =? 7) && negb (ps =? 4096)) then None else
+               if (ps =? 0) || (1000000 <? sz) || ((tr =? 7) && negb (ps =? 4096))
+                  || (1 <? trk / 16) || ((trk / 16 =? 1) && (negb (st mod 4096 =? 0) || (1099511627776 <? st))) then None else
                match dec_regions k r with
                | Some (rs, rest) =>
                    Some ({| r_start := st; r_size := sz; r_ps := ps; r_tracked := (tr =? 1) || (tr =? 2) || (tr =? 3) || (tr =? 5) || (tr =? 6) || (tr =? 7);
